@@ -32,6 +32,7 @@ PROPS["C13"] = {
 }
 
 PROPS["C18"] = {
+    "verus": True,
     "level_text": "Proof by contract of the outstation half of time synchronisation on a real session (written time = value + elapsed since RECORD_CURRENT_TIME; rejected on missing record, clock rollback, 48-bit overflow or wrong object count), of the 48-bit timestamp arithmetic, and of the master-side pure helpers that are synchronous.",
     "level_note": "Master task steps (rtt/2 computation inside handle_delay_measure/handle_write_absolute_time on Association) are not reachable by CBMC and are not covered; mapping of 'now' to real transmission instants is an assumption; clock is a harness stub.",
     "not_covered": ["master::tasks::time::TimeSyncTask::{handle_delay_measure,handle_write_absolute_time,handle_write_last_recorded_time} need &mut Association (CBMC does not finish)"],
@@ -63,6 +64,7 @@ PROPS["C16"] = {
     "not_covered": ["master::tasks::command (async): SELECT then OPERATE sequencing, every exit reports exactly one outcome", "master::request::CommandHeaders::compare over a HeaderCollection (dispatcher)"],
 }
 PROPS["C17"] = {
+    "verus": True,
     "level_text": "Proof by contract of the retry back-off arithmetic on the full Duration domain (first delay = min, then doubling capped at max, overflow -> max), of the automatic-task state transitions including retry instant = now + delay, and of the start-up / restart-IIN / reset re-arming of the task states.",
     "level_note": "Not covered: the fixed priority ORDER in TaskStates::next, create_next_task's wait gate, Association::{process_iin,on_restart_iin_observed,reset} and the unsolicited gating - all need Association/Task values that CBMC cannot instrument. Assumes RetryStrategy min <= max (not enforced by the constructor).",
     "not_covered": ["master::association::TaskStates::next priority order", "master::association::Association::handle_unsolicited_response gating"],
@@ -78,6 +80,7 @@ PROPS["C01"] = {
 }
 
 PROPS["C08"] = {
+    "verus": True,
     "level_text": "Proof by contract of the transport receiver: header codec on all 256 octets, sequence arithmetic mod 64, Assembler::assemble one step from every well-formed pre-state against a spec function written from the property (FIR restarts, non-FIR ignored when idle, continuation only with next sequence number from the same source, overflow drops, FIN completes with a fresh frame id, broadcast only FIR+FIN), buffer bytes, peek/pop/reset, and the Reader's pop/peek/reset.",
     "level_note": "Not covered: Writer::write and Reader::read (async, PhysLayer) - so neither the sender's segmentation loop nor the read-loop guard that keeps assemble from being called while a completed fragment is untaken (stated caller precondition). Running-state buffer bytes for buffer 32 and pinned lengths at 2048 (bounded in that dimension); IPv6 source addresses excluded; multi-segment composition is the inductive argument in DESIGN.",
     "not_covered": ["transport::real::writer::Writer::write (async): chunks of 249, FIR first, FIN last, consecutive sequence numbers", "transport::real::reader::Reader::read (async): guard `assembler.peek().is_some()` is the caller precondition of assemble"],
